@@ -633,7 +633,7 @@ func c13JudgeScript(c *mon.Ctx, in *c13Script) {
 				continue
 			}
 			switch t.Op {
-			case 0x63, 0x64, 0x65, 0x66:
+			case 0x63, 0x64:
 				depth++
 			case 0x68:
 				depth--
